@@ -162,6 +162,12 @@ def check_group_a(ctx: Ctx, name: str):
             v = a.values[[ast.unparse(t) for t in a.targets].index(ov)] if a.values else None
             cand = pa._norm(v) if v is not None else "?"
             cand_txt = ast.unparse(strip_copy(v)[0]) if v is not None else "?"
+            if v is None:
+                # the incumbent is unpacked from a record (`best_solution, best_fitness = pop[0]`): accept any ordering
+                # test `<candidate value> < best` among the guards
+                okg = any(a_.endswith(f" < {ov}") or a_.endswith(f" <= {ov}") for a_ in at)
+                ctx.ob("C19-O3", "R6 INCUMBENT", f, f"incumbent update `{ast.unparse(a.stmt)[:50]}` is guarded by `candidate < best`", okg, f"guards {sorted(x for x in at if ov in x)}: an unguarded overwrite replaces the incumbent by whatever heads the population, which is worse whenever no elite survived", node=a.stmt)
+                continue
             better = {atom_of(f"{cand_txt} < {ov}"), atom_of(f"{cand_txt} <= {ov}")}
             ctx.ob("C19-O3", "R6 INCUMBENT", f, f"incumbent update `{ast.unparse(a.stmt)[:50]}` is guarded by `candidate < best`", bool(better & at), f"guards {sorted(x for x in at if ov in x)}", node=a.stmt)
         # an in-loop publication comes after this iteration's incumbent update: in the body of the loop that holds the
@@ -203,6 +209,11 @@ def check_group_a(ctx: Ctx, name: str):
             ap = [n for n in own_nodes(f.node) if isinstance(n, ast.Call) and ast.unparse(n.func) == "new_pop.append"]
             same = bool(ap) and all(any(ast.unparse(x).startswith("child = Individual(") for x in _enclosing_block(f.node, cfg.stmt_node_containing(a_).ast)) for a_ in ap)
             ctx.ob("C19-O3", "R6 INCUMBENT", f, "every evaluated child joins the new population unconditionally; the population is sorted by fitness before the incumbent test on its first member", blk_ok and same, "", node=f.node)
+
+    # the search works on the evaluator's internal (always minimised) values: `minimize` is consumed by Evaluator only
+    mreads = [n for n in ast.walk(f.node) if isinstance(n, ast.Name) and n.id == "minimize" and isinstance(n.ctx, ast.Load)]
+    okm = all(any(isinstance(c, ast.Call) and ast.unparse(c.func) == "Evaluator" and any(x is n for a_ in c.args + [k.value for k in c.keywords] for x in ast.walk(a_)) for c in ast.walk(f.node)) for n in mreads)
+    ctx.ob("C19-O2", "R4 SIGN-UNIT", f, "`minimize` is read only to build the Evaluator (everything else works on internal, minimised values)", okm and len(mreads) >= 1, f"{len(mreads)} read(s): a second sign switch on values that are already sign-adjusted flips them back, and maximising f no longer mirrors minimising -f", node=mreads[-1] if mreads else f.node)
 
     # ---- O4 evaluator exclusivity
     uses = [n for n in own_nodes(f.node) if isinstance(n, ast.Name) and n.id == "objective_fn" and isinstance(n.ctx, ast.Load)]
@@ -757,6 +768,22 @@ def _v_tabu_update_after_progress(tree):
     M.replace_stmt(g, lambda s: isinstance(s, ast.If) and M.src_has(s.test, "report_progress"), lambda s: [s, holder["s"]])
 
 
+def _v_evolve_unguarded_head(tree):
+    g = M.find_func(tree, "evolve")
+    M.replace_stmt(g, lambda s: isinstance(s, ast.If) and M.src_has(s.test, "pop[0].fitness < best_fitness"), lambda s: M.stmts("improved = pop[0].fitness < best_fitness\nbest_solution, best_fitness = pop[0]"))
+
+
+def _v_ucb_sign_by_minimize(tree):
+    g = M.find_func(tree, "bayesian_opt")
+    fn = [n for n in ast.walk(g) if isinstance(n, ast.FunctionDef) and n.name == "ucb"]
+    if not fn:
+        raise M.Skip("ucb closure not found")
+    rets = [r for r in ast.walk(fn[0]) if isinstance(r, ast.Return) and M.src_has(r.value, "kappa_val * sigma")]
+    if not rets:
+        raise M.Skip("ucb return not found")
+    rets[0].value = M.expr("-mu + kappa_val * sigma if minimize else mu + kappa_val * sigma")
+
+
 def _v_nm_greedy_expansion(tree):
     g = M.find_func(tree, "nelder_mead")
     M.replace_expr(g, lambda e: M.src_is(e, "expanded_val < reflected_val"), M.expr("expanded_val < best_val"))
@@ -771,6 +798,8 @@ VARIANTS = [
     M.Variant("anneal updates the best solution without its objective", AN, _v_anneal_stale_obj, "C19-O1"),
     M.Variant("anneal overwrites the best with any accepted move", AN, _v_anneal_best_worse, "C19-O3"),
     M.Variant("tabu keeps the worse of best / current", TB, _v_tabu_wrong_sign, "C19-O3"),
+    M.Variant("evolve overwrites the incumbent with the population head (seed C19-G)", "solvor/genetic.py", _v_evolve_unguarded_head, "C19-O3"),
+    M.Variant("bayesian UCB switches sign on `minimize` although the model sees internal values (seed C19-H)", "solvor/bayesian.py", _v_ucb_sign_by_minimize, "C19-O2"),
     M.Variant("tabu updates the incumbent after the progress-stop return (seed C19-E)", TB, _v_tabu_update_after_progress, "C19-O3"),
     M.Variant("alns calls the user objective directly", LN, _v_user_objective_direct, "C19-O4"),
     M.Variant("evolve publishes the internal (signed) fitness", GE, _v_result_internal, "C19-O2"),
